@@ -16,3 +16,34 @@ Definition run_case (mods : list (module * nat * list (maybe value))) (c : nat *
   | Some (m, tid, ps) => run_view m tid ps (snd c) 8
   | None => []
   end.
+
+(* ---- C20: Equals / TryToCopyFrom on two views over one allocation ---- *)
+Require Import EmbossV.View.Equals.
+
+Definition run_pair (mods : list (module * nat * list (maybe value)))
+           (c : nat * (list Z * (Z * Z) * (Z * Z))) : list Z :=
+  match nth_error mods (fst c) with
+  | None => []
+  | Some (m, tid, ps) =>
+      match nth_error m tid with
+      | None => []
+      | Some d =>
+          let '(mem, (o1, l1), (o2, l2)) := snd c in
+          let fuel := 8%nat in
+          let v1 := eval_struct m mem fuel d ps true (SB (Some (o1, l1))) in
+          let v2 := eval_struct m mem fuel d ps true (SB (Some (o2, l2))) in
+          let both := fr_sok v1 && fr_sok v2 in
+          [obs_bool (fr_sok v1); obs_bool (fr_sok v2)]
+          ++ (if both then [obs_bool (equals_struct m fuel d (fr_sub v1) (fr_sub v2));
+                            obs_bool (equals_struct m fuel d (fr_sub v2) (fr_sub v1))] else [])
+          ++ match view_try_copy mem (Some (o1, l1)) v2 with
+             | None => 0 :: mem
+             | Some mem' =>
+                 let w1 := eval_struct m mem' fuel d ps true (SB (Some (o1, l1))) in
+                 let w2 := eval_struct m mem' fuel d ps true (SB (Some (o2, l2))) in
+                 1 :: mem' ++ [obs_bool (fr_sok w1)]
+                   ++ (if fr_sok w1 && fr_sok w2
+                       then [obs_bool (equals_struct m fuel d (fr_sub w1) (fr_sub w2))] else [])
+             end
+      end
+  end.
